@@ -106,6 +106,57 @@ func runP(c *Ctx, rule string, specs []entrySpec, minFuncs, minPCIs int) {
 			}
 		}
 	}
+	if c.Tier == "thorough" {
+		// deeper: the same obligations over the functions that only the coarser class-hierarchy call
+		// graph reaches from the entry points (interface methods the value-flow graph proves unused)
+		inFns := map[*ssa.Function]bool{}
+		for _, f := range fns {
+			inFns[f] = true
+		}
+		cha := c.P.CHA()
+		seen := map[*ssa.Function]bool{}
+		var extra []*ssa.Function
+		var walk func(f *ssa.Function)
+		walk = func(f *ssa.Function) {
+			if f == nil || seen[f] {
+				return
+			}
+			seen[f] = true
+			if !inFns[f] && len(f.Blocks) > 0 && inScope(pkgPathOf(f)) {
+				extra = append(extra, f)
+			}
+			if nd := cha.Nodes[f]; nd != nil {
+				for _, e := range nd.Out {
+					if inScope(pkgPathOf(e.Callee.Func)) {
+						walk(e.Callee.Func)
+					}
+				}
+			}
+		}
+		for _, f := range fns {
+			walk(f)
+		}
+		sort.Slice(extra, func(i, j int) bool { return funcName(extra[i]) < funcName(extra[j]) })
+		ne, nu := 0, 0
+		for _, fn := range extra {
+			for _, p := range pe.enumerate(fn, false) {
+				if p.kind == "alloc" {
+					continue
+				}
+				ne++
+				ok, _, why := pe.discharge(p)
+				if ok {
+					c.OK(rule, "cha/"+p.key, p.ins.Pos(), "guarded (function reached only through the class-hierarchy call graph)")
+				} else {
+					nu++
+					c.InfoNote(rule, "cha/"+p.key, posOfInstr(p.ins), "not proven, in a function the value-flow call graph shows unreachable from the property's entry points (reached only under the class-hierarchy over-approximation): "+why)
+				}
+			}
+		}
+		c.Covered[rule+":thorough:cha_only_functions"] = len(extra)
+		c.Covered[rule+":thorough:cha_only_partial_operations"] = ne
+		c.Covered[rule+":thorough:cha_only_unproven"] = nu
+	}
 	c.Covered[rule+":functions_reachable"] = len(fns)
 	c.Covered[rule+":partial_operations"] = n
 	var ks []string
